@@ -310,6 +310,30 @@ def _long(shard):
                 j = int(np.nonzero(cat != whole)[0][0]) if cat.shape == whole.shape else -1
                 out["failures"].append(fw.fail(f"long/{shard['gen']}", f"{shard['gen']} seed={seed}: one request of {n} samples differs from the same samples drawn in blocks {blocks[:3]}...: first difference at sample {j}", dict(shard)))
                 break
+    if shard["gen"] in ("white/a", "red/a/raw", "pink/raw"):
+        # one request beyond 2^24 samples (the size at which array libraries start to split work)
+        n = 2 ** 24 + 1000
+        whole = np.asarray(make0(seed).get_series(n))
+        for blocks in ([2 ** 23, 2 ** 23, 1000], [n - 7, 7]):
+            g = make0(seed)
+            cat = np.concatenate([np.asarray(g.get_series(b)) for b in blocks])
+            out["evals"] += 1
+            out["nontrivial"] += 1
+            if cat.shape != whole.shape or not np.array_equal(cat, whole):
+                j = int(np.nonzero(cat != whole)[0][0]) if cat.shape == whole.shape else -1
+                out["failures"].append(fw.fail(f"long/{shard['gen']}/2^24", f"{shard['gen']} seed={seed}: one request of {n} samples differs from the same samples drawn in blocks {blocks}: first difference at sample {j}", dict(shard)))
+                break
+            del cat
+        # ... and the stream continues correctly after such a request
+        g1, g2 = make0(seed), make0(seed)
+        g1.get_series(n)
+        for b in (2 ** 23, 2 ** 23, 1000):
+            g2.get_series(b)
+        a1, a2 = np.asarray(g1.get_series(50)), np.asarray(g2.get_series(50))
+        out["evals"] += 1
+        if not np.array_equal(a1, a2):
+            out["failures"].append(fw.fail(f"long/{shard['gen']}/2^24-after", f"{shard['gen']} seed={seed}: the 50 samples following a request of {n} differ from those following the same samples drawn in three blocks", dict(shard)))
+        del whole
     if shard["gen"].startswith("alpha1.3/raw"):
         cascade = getattr(noise, "_numba_lfilter_cascade", None)
         try:
